@@ -727,6 +727,46 @@ impl Ast {
         self.has_backref() && self.has_nullable_loop()
     }
 
+    /// Maximum nesting depth of quantifiers.
+    pub fn quant_depth(&self) -> usize {
+        match self {
+            Ast::Seq(v) | Ast::Alt(v) => v.iter().map(|x| x.quant_depth()).max().unwrap_or(0),
+            Ast::Rep(b, ..) => 1 + b.quant_depth(),
+            Ast::Group(_, b) | Ast::NonCap(b) => b.quant_depth(),
+            _ => 0,
+        }
+    }
+
+    /// Is a capturing group located inside a quantified body?
+    pub fn has_group_in_rep(&self) -> bool {
+        match self {
+            Ast::Seq(v) | Ast::Alt(v) => v.iter().any(|x| x.has_group_in_rep()),
+            Ast::Rep(b, ..) => b.has_group() || b.has_group_in_rep(),
+            Ast::Group(_, b) | Ast::NonCap(b) => b.has_group_in_rep(),
+            _ => false,
+        }
+    }
+
+    /// Structural attributes used to triage failures (development aid; also
+    /// written into violation files).
+    pub fn shape(&self) -> String {
+        let mut v = vec![];
+        if self.has_nullable_loop() {
+            v.push("nullable-loop".to_string());
+        }
+        v.push(format!("quant-depth-{}", self.quant_depth()));
+        if self.has_group_in_rep() {
+            v.push("group-in-repeat".to_string());
+        }
+        if self.has_backref() {
+            v.push("backref".to_string());
+        }
+        if self.has_anchor() {
+            v.push("anchor".to_string());
+        }
+        v.join(",")
+    }
+
     pub fn size(&self) -> usize {
         match self {
             Ast::Seq(v) | Ast::Alt(v) => 1 + v.iter().map(|x| x.size()).sum::<usize>(),
